@@ -154,6 +154,16 @@ pub fn check_one_src(
             && cur.get(i).map(|o| &o.ev) == Some(&Ev::Text(Vec::new()))
             // the finding is about blank-only text *in front of markup*; at the end of the input such text is dropped
             && cur.get(i).map_or(false, |o| (o.pos as usize) < s.len())
+            // and the bytes in front of that position are indeed a non-empty run of XML blanks that starts the
+            // input or follows a `>`
+            && cur.get(i).map_or(false, |o| {
+                let end = o.pos as usize;
+                let mut b = end;
+                while b > 0 && matches!(s[b - 1], b' ' | b'\t' | b'\r' | b'\n') {
+                    b -= 1;
+                }
+                b < end && (b == 0 || s[b - 1] == b'>') && s.get(end) == Some(&b'<')
+            })
         {
             cur.remove(i);
             if !used.contains(&"F7") {
